@@ -14,24 +14,44 @@ use yara_x_parser::cst::{CSTStream, Event};
 use yara_x_parser::Parser;
 
 #[derive(Clone, Debug, PartialEq)]
-pub struct P { pub code: String, pub start: usize, pub end: usize, pub repl: String }
+pub struct P { pub code: String, pub origin: String, pub start: usize, pub end: usize, pub repl: String }
 
 pub struct Compiled { pub rules: Option<yara_x::Rules>, pub patches: Vec<P>, pub warning_codes: Vec<String>, pub errors: Vec<String> }
 
-pub fn compile(src: &[u8]) -> Compiled {
+pub fn compile(src: &[u8]) -> Compiled { compile_in(src, "case.yar", None) }
+
+/// Compiles `src` (origin `origin`); `include "x"` is resolved in `dir`.
+pub fn compile_in(src: &[u8], origin: &str, dir: Option<&Path>) -> Compiled {
     let mut c = yara_x::Compiler::new();
-    let r_ok = c.add_source(yara_x::SourceCode::from(src).with_origin("case.yar")).is_ok();
+    if let Some(d) = dir { c.add_include_dir(d); }
+    let r_ok = c.add_source(yara_x::SourceCode::from(src).with_origin(origin)).is_ok();
     let mut patches = vec![];
     let mut codes = vec![];
     for w in c.warnings() {
         codes.push(w.code().to_string());
         for p in w.patches() {
-            patches.push(P { code: w.code().to_string(), start: p.span().start(), end: p.span().end(), repl: p.replacement().to_string() });
+            patches.push(P { code: w.code().to_string(), origin: p.origin().unwrap_or_default(), start: p.span().start(), end: p.span().end(), repl: p.replacement().to_string() });
         }
     }
     let errors: Vec<String> = c.errors().iter().map(|e| e.code().to_string()).collect();
     let ok = r_ok && errors.is_empty();
     Compiled { rules: if ok { Some(c.build()) } else { None }, patches, warning_codes: codes, errors }
+}
+
+/// Is the text a patch replaces what its diagnostic talks about?
+pub fn span_text_ok(src: &[u8], p: &P) -> bool {
+    if p.start > p.end || p.end > src.len() { return false; }
+    let t = &src[p.start..p.end];
+    match p.code.as_str() {
+        "bool_int_comparison" => t.windows(2).any(|w| w == b"=="),
+        "ambiguous_expr" => t == b"0",
+        "duplicate_import" => t.starts_with(b"import"),
+        "text_as_hex" => t.starts_with(b"{") && t.ends_with(b"}"),
+        "consecutive_jumps" => t.starts_with(b"[") && t.ends_with(b"]"),
+        "unsatisfiable_expr" => t.starts_with(b"\"") && t.ends_with(b"\""),
+        "deprecated_field" => t.iter().all(|c| c.is_ascii_alphanumeric() || *c == b'_'),
+        _ => true,
+    }
 }
 
 /// canonical scan dump: matching rules with their pattern matches
@@ -80,8 +100,18 @@ pub struct Gen { pub src: String, pub needles: Vec<Vec<u8>>, pub shape: Vec<&'st
 const BOOLS: [&str; 8] = ["math.in_range(filesize, 0, 8)", "pe.is_pe", "pe.is_dll()", "math.in_range(filesize, 4, 100)", "pe.is_32bit()",
     "math.in_range(#a, 1, 3)", "pe.is_signed", "math.in_range(math.abs(filesize - 7), 0, 2)"];
 
+/// when set, the generators avoid the shapes with known defects (chained comparisons,
+/// parenthesised operands): used by the include cases, which look for something else
+static CLEAN: std::sync::atomic::AtomicBool = std::sync::atomic::AtomicBool::new(false);
+fn clean() -> bool { CLEAN.load(std::sync::atomic::Ordering::Relaxed) }
+
 fn bool_cmp(rng: &mut Rng, depth: u32, shape: &mut Vec<&'static str>) -> String {
-    let b = if depth > 0 && rng.chance(1, 4) { shape.push("nested"); bool_cmp(rng, depth - 1, shape) } else { rng.pick(&BOOLS).to_string() };
+    let depth = if clean() { 0 } else { depth };
+    let mut b = if depth > 0 && rng.chance(1, 4) { shape.push("nested"); bool_cmp(rng, depth - 1, shape) } else { rng.pick(&BOOLS).to_string() };
+    if !b.contains("==") && !clean() && rng.chance(1, 5) {
+        shape.push("parenthesised-operand");
+        b = match rng.below(5) { 0 => format!("({})", b), 1 => format!("( {} )", b), 2 => format!("(({}))", b), 3 => format!("(/* c */ {})", b), _ => format!("(\n      {}\n    )", b) };
+    }
     let k = if rng.chance(1, 2) { "0" } else { "1" };
     if rng.chance(2, 3) { format!("{} == {}", b, k) } else { shape.push("const-on-left"); format!("{} == {}", k, b) }
 }
@@ -106,7 +136,9 @@ fn hex_of(bytes: &[u8], rng: &mut Rng) -> String {
     s.push('}'); s
 }
 
-pub fn gen_source(rng: &mut Rng, index: usize) -> Gen {
+pub fn gen_source(rng: &mut Rng, index: usize) -> Gen { gen_source_named(rng, index, "t") }
+
+pub fn gen_source_named(rng: &mut Rng, index: usize, name: &str) -> Gen {
     let mut shape: Vec<&'static str> = vec![];
     let mut needles: Vec<Vec<u8>> = vec![b"abc".to_vec(), b"zzz".to_vec()];
     let mut imports = String::from("import \"pe\"\nimport \"math\"\n");
@@ -149,14 +181,14 @@ pub fn gen_source(rng: &mut Rng, index: usize) -> Gen {
                 conds.push(context(rng, e, &mut shape)); }
         }
     }
-    if rng.chance(1, 6) { shape.push("second-rule"); extra_rules = "rule other {\n  condition:\n    pe.is_pe == 0 or filesize == 3\n}\n".into(); }
+    if rng.chance(1, 6) { shape.push("second-rule"); extra_rules = format!("rule other_{} {{\n  condition:\n    pe.is_pe == 0 or filesize == 3\n}}\n", name); }
     if conds.is_empty() { conds.push("$a".into()); }
     let uses_c = conds.iter().any(|c| c.contains("$c"));
     if uses_c { strings.push_str("    $c = \"needle\"\n"); needles.push(b"needle".to_vec()); }
     // all patterns must be used
     let joiner = *rng.pick(&[" and\n    ", " or\n    ", " and ", " or "]);
     let cond = format!("{}{}($a or $b or true)", conds.join(joiner), joiner);
-    let src = format!("{}rule t {{\n  strings:\n{}  condition:\n    {}\n}}\n{}", imports, strings, cond, extra_rules);
+    let src = format!("{}rule {} {{\n  strings:\n{}  condition:\n    {}\n}}\n{}", imports, name, strings, cond, extra_rules);
     Gen { src, needles, shape }
 }
 
@@ -174,6 +206,9 @@ fn corpus() -> Vec<Gen> {
         g("import \"pe\"\nrule t {\n  condition:\n    pe.is_dll() == 0\n}\n", vec!["bool-int", "function-call"]),
         g("import \"pe\"\nrule t {\n  condition:\n    0 == pe.is_dll()\n}\n", vec!["bool-int", "function-call", "const-on-left"]),
         g("import \"hash\"\nrule t {\n  condition:\n    hash.md5(0, filesize) == \"D41D8CD98F00B204E9800998ECF842\\\"E\"\n}\n", vec!["case-constraint"]),
+        // parenthesised operands: the span of the comparison starts inside the parentheses
+        g("import \"pe\"\nrule t {\n  condition:\n    (pe.is_pe) == 1\n}\n", vec!["bool-int", "parenthesised-operand"]),
+        g("import \"pe\"\nrule t {\n  condition:\n    1 == ((pe.is_pe))\n}\n", vec!["bool-int", "parenthesised-operand", "const-on-left"]),
         // regression cases of the repaired defects (84ef5faa, 06e06e0e, 2bbcf270)
         g("import \"pe\"\nrule t {\n  condition:\n    1 == pe.is_dll()\n}\n", vec!["bool-int", "function-call", "const-on-left"]),
         g("import \"math\"\nrule t {\n  condition:\n    math.in_range(math.abs(filesize - 7), 0, 2) == 0\n}\n", vec!["bool-int", "function-call"]),
@@ -267,7 +302,9 @@ fn patch_detail(src: &[u8], p: &P) -> &'static str {
             let r = p.repl.trim_start_matches("not ");
             let fname: String = r.chars().take_while(|c| c.is_alphanumeric() || *c == '_').collect();
             let is_call = !fname.is_empty() && r[fname.len()..].starts_with('(');
-            if (p.start > 0 && src[p.start - 1] == b'.') || (is_call && replaced.contains(&format!(".{}(", fname))) { "function-call-operand-span-excludes-module-prefix" } else { "other" }
+            let unbalanced = replaced.matches('(').count() != replaced.matches(')').count();
+            if (p.start > 0 && src[p.start - 1] == b'.') || (is_call && replaced.contains(&format!(".{}(", fname))) { "function-call-operand-span-excludes-module-prefix" }
+            else if unbalanced { "parenthesised-operand-span-covers-one-parenthesis" } else { "other" }
         }
         "unsatisfiable_expr" => if src[p.start..p.end].contains(&b'\\') { "constant-with-escape-sequence-requoted-unescaped" } else { "other" },
         "ambiguous_expr" => "zero-of-rewritten-to-none",
@@ -318,6 +355,110 @@ pub fn classify(rng: &mut Rng, g: &Gen, c: &Compiled, v: &Verdict) -> String {
     else { "fix-changes-scan-results:combination".into() }
 }
 
+// ------------------------------------------------------------------ sources with `include`
+pub struct FileObs { pub path: String, pub text: Vec<u8>, pub patches: Vec<P>, pub fixed: Option<Vec<u8>>, pub yr_after: Option<Vec<u8>> }
+
+/// main.yar (a rule with fixable diagnostics, `include "common.yar"`, another
+/// such rule AFTER the include) and common.yar (a rule with fixable diagnostics)
+/// in a temporary directory; returns one (case, replay) per file.
+fn include_cases(rng: &mut Rng, index: usize, root: &Path, yr: Option<&str>, stats: &mut Stats) -> Vec<(String, String)> {
+    CLEAN.store(true, std::sync::atomic::Ordering::Relaxed);
+    let before = gen_source_named(rng, index, "m_before");
+    let common = gen_source_named(rng, index + 1, "c_rule");
+    let after = gen_source_named(rng, index + 2, "m_after");
+    CLEAN.store(false, std::sync::atomic::Ordering::Relaxed);
+    let layout = rng.below(3);
+    let main_text = match layout {
+        0 => format!("{}include \"common.yar\"\n{}", before.src, after.src),
+        1 => format!("include \"common.yar\"\n{}{}", before.src, after.src),
+        _ => format!("{}{}include \"common.yar\"\n", before.src, after.src),
+    };
+    let dir = root.join("inc"); let _ = std::fs::remove_dir_all(&dir); std::fs::create_dir_all(&dir).unwrap();
+    let main_path = dir.join("main.yar"); let common_path = dir.join("common.yar");
+    std::fs::write(&main_path, &main_text).unwrap(); std::fs::write(&common_path, &common.src).unwrap();
+    let mp = main_path.to_str().unwrap().to_string(); let cp = common_path.to_str().unwrap().to_string();
+    let c = compile_in(main_text.as_bytes(), &mp, Some(&dir));
+    let mut files = vec![
+        FileObs { path: mp.clone(), text: main_text.clone().into_bytes(), patches: vec![], fixed: None, yr_after: None },
+        FileObs { path: cp.clone(), text: common.src.clone().into_bytes(), patches: vec![], fixed: None, yr_after: None }];
+    let mut class = String::from("none");
+    for p in &c.patches {
+        match files.iter_mut().find(|f| f.path == p.origin) {
+            Some(f) => f.patches.push(p.clone()),
+            None => { class = format!("include:patch-origin-is-no-file-of-the-compilation:{}", p.code); }
+        }
+    }
+    // every patch must talk about the text of the file it names
+    let mut text_ok = true;
+    for f in &files { for p in &f.patches { if !span_text_ok(&f.text, p) {
+        text_ok = false;
+        let other = files.iter().find(|g| g.path != f.path).unwrap();
+        if class == "none" { class = if span_text_ok(&other.text, p) { format!("include:patch-origin-names-the-wrong-file:{}", p.code) } else { format!("include:patch-span-does-not-cover-the-diagnosed-text:{}", p.code) }; }
+    } } }
+    let mut all_spliced = true;
+    for f in files.iter_mut() {
+        let inb = f.patches.iter().all(|p| p.start <= p.end && p.end <= f.text.len());
+        f.fixed = if inb { splice(&f.text, &f.patches) } else { None };
+        if f.fixed.is_none() { all_spliced = false; if class == "none" { class = "include:patches-overlap-or-out-of-bounds".into(); } }
+    }
+    let (mut recompiles, mut fixed_gone, mut scan_equal) = (true, true, true);
+    let nothing_to_compare = c.rules.is_none() || c.patches.iter().any(|p| !is_equivalence_fix(&p.code)) || c.patches.is_empty();
+    let mut remaining: Vec<String> = vec![];
+    if all_spliced && !c.patches.is_empty() {
+        let d2 = root.join("inc_fixed"); let _ = std::fs::remove_dir_all(&d2); std::fs::create_dir_all(&d2).unwrap();
+        for f in &files { std::fs::write(d2.join(Path::new(&f.path).file_name().unwrap()), f.fixed.as_ref().unwrap()).unwrap(); }
+        let m2 = d2.join("main.yar");
+        let c2 = compile_in(&std::fs::read(&m2).unwrap(), m2.to_str().unwrap(), Some(&d2));
+        recompiles = c2.rules.is_some() || c.rules.is_none();
+        let codes: BTreeSet<&String> = c.patches.iter().map(|p| &p.code).collect();
+        remaining = c2.patches.iter().filter(|p| codes.contains(&p.code)).map(|p| p.code.clone()).collect();
+        fixed_gone = remaining.is_empty() || !recompiles;
+        if !nothing_to_compare { if let (Some(r1), Some(r2)) = (&c.rules, &c2.rules) {
+            let mut g = Gen { src: String::new(), needles: before.needles.clone(), shape: vec![] };
+            g.needles.extend(common.needles.iter().cloned()); g.needles.extend(after.needles.iter().cloned());
+            if scans_equal(rng, &g, r1, r2).is_err() { scan_equal = false; } } }
+        if class == "none" {
+            if !recompiles { class = "include:fixed-sources-do-not-compile".into(); }
+            else if !fixed_gone { class = format!("include:diagnostic-still-reported-after-fix:{}", remaining.join("+")); }
+            else if !scan_equal && !nothing_to_compare { class = "include:fix-changes-scan-results".into(); }
+        }
+    }
+    // the real tool on a copy of the directory
+    let mut yr_ok: Option<bool> = None;
+    if let Some(y) = yr {
+        let d3 = root.join("inc_yr"); let _ = std::fs::remove_dir_all(&d3); std::fs::create_dir_all(&d3).unwrap();
+        for f in &files { std::fs::write(d3.join(Path::new(&f.path).file_name().unwrap()), &f.text).unwrap(); }
+        // the tool is run from inside the directory so that the origins are the same relative-free paths
+        if let Ok(st) = std::process::Command::new(y).arg("fix").arg("warnings").arg("--include-dir").arg(&d3).arg(d3.join("main.yar"))
+            .env("RUST_BACKTRACE", "0").stdout(std::process::Stdio::null()).stderr(std::process::Stdio::null()).status() {
+            yr_ok = Some(st.success());
+            for f in files.iter_mut() { f.yr_after = std::fs::read(d3.join(Path::new(&f.path).file_name().unwrap())).ok(); }
+            stats.inc("yr_runs_include");
+        }
+    }
+    stats.inc("include_cases");
+    stats.inc(&format!("include_layout_{}", layout));
+    if files[1].patches.len() > 0 { stats.inc("include_patches_in_included_file"); }
+    if class != "none" { stats.inc(&format!("impl_fails_{}", class.splitn(3, ':').take(2).collect::<Vec<_>>().join(":"))); }
+    let mut out = vec![];
+    for f in &files {
+        let tb: Vec<usize> = token_boundaries(&f.text).into_iter().collect();
+        let ok_text = text_ok && f.patches.iter().all(|p| span_text_ok(&f.text, p));
+        let case = format!("mkCase {} {} {} {} {} {} {} {} {} {}",
+            coq_bytes(&f.text), coq_list(&f.patches, coq_patch), coq_list(&tb, |x| format!("{}%nat", x)),
+            coq_option(&f.fixed, |t| coq_bytes(t)),
+            match (&yr_ok, &f.yr_after) { (Some(ok), Some(t)) => format!("(Some ({}, {}))", coq_bool(*ok), coq_bytes(t)), _ => "None".into() },
+            coq_bool(recompiles), coq_bool(fixed_gone), coq_bool(scan_equal), coq_bool(nothing_to_compare), coq_bool(ok_text && class.find("origin").is_none()));
+        let replay = format!("{{\"index\":{},\"kind\":\"include\",\"file\":{},\"main\":{},\"common\":{},\"patches\":{},\"class\":{},\"fixed\":{},\"recompiles\":{},\"remaining_fixable\":{},\"yr\":{}}}",
+            index, json_str(Path::new(&f.path).file_name().unwrap().to_str().unwrap()), json_str(&main_text), json_str(&common.src),
+            format!("[{}]", c.patches.iter().map(|p| format!("{{\"code\":{},\"origin\":{},\"start\":{},\"end\":{},\"replacement\":{}}}", json_str(&p.code), json_str(Path::new(&p.origin).file_name().and_then(|x| x.to_str()).unwrap_or(&p.origin)), p.start, p.end, json_str(&p.repl))).collect::<Vec<_>>().join(",")),
+            json_str(&class), match &f.fixed { Some(t) => json_str(&String::from_utf8_lossy(t)), None => "null".into() }, recompiles, json_str(&remaining.join(",")),
+            match (&yr_ok, &f.yr_after) { (Some(ok), Some(t)) => format!("{{\"exit_ok\":{},\"file_after\":{}}}", ok, json_str(&String::from_utf8_lossy(t))), _ => "null".into() });
+        out.push((case, replay));
+    }
+    out
+}
+
 pub fn run(args: &[String]) -> i32 {
     quiet_panics();
     let seed = arg_u64(args, "--seed", 1);
@@ -341,9 +482,15 @@ pub fn run(args: &[String]) -> i32 {
     let _ = std::fs::create_dir_all(&tmp);
     let mut pending = corpus(); pending.reverse();
     let mut yr_done = 0usize;
+    let mut inc_yr_done = 0usize;
     let mut index = 0usize;
     while shards.total < n {
         index += 1;
+        if pending.is_empty() && index % 6 == 0 {
+            let use_yr = if inc_yr_done < n_yr / 3 + 2 { inc_yr_done += 1; yr.as_deref() } else { None };
+            for (case, replay) in include_cases(&mut rng, index, &tmp, use_yr, &mut stats) { shards.push(case, replay); }
+            continue;
+        }
         let g = pending.pop().unwrap_or_else(|| gen_source(&mut rng, index));
         let src = g.src.as_bytes();
         let c = match catch(AssertUnwindSafe(|| compile(src))) { Ok(c) => c, Err(p) => { eprintln!("c20: compiler panicked on {:?}: {}", g.src, p); stats.inc("compiler_panic"); continue; } };
@@ -362,11 +509,13 @@ pub fn run(args: &[String]) -> i32 {
             yr_res = run_yr(y, &tmp, src); if yr_res.is_some() { yr_done += 1; stats.inc("yr_runs"); if !yr_res.as_ref().unwrap().0 { stats.inc("yr_failed_exit"); } }
         } }
         let tb: Vec<usize> = token_boundaries(src).into_iter().collect();
-        let case = format!("mkCase {} {} {} {} {} {} {} {} {}",
+        let span_ok = c.patches.iter().all(|p| p.origin == "case.yar" && (p.end > src.len() || p.start > p.end || span_text_ok(src, p)));
+        let case = format!("mkCase {} {} {} {} {} {} {} {} {} {}",
             coq_bytes(src), coq_list(&c.patches, coq_patch), coq_list(&tb, |x| format!("{}%nat", x)),
             coq_option(&v.fixed, |t| coq_bytes(t)),
             coq_option(&yr_res, |(ok, t)| format!("({}, {})", coq_bool(*ok), coq_bytes(t))),
-            coq_bool(v.recompiles), coq_bool(v.fixed_gone), coq_bool(v.scan_equal), coq_bool(v.nothing_to_compare));
+            coq_bool(v.recompiles), coq_bool(v.fixed_gone), coq_bool(v.scan_equal), coq_bool(v.nothing_to_compare), coq_bool(span_ok));
+        let class = if class == "none" && !span_ok { "patch-span-does-not-cover-the-diagnosed-text".to_string() } else { class };
         let replay = format!("{{\"index\":{},\"source\":{},\"shape\":{},\"patches\":{},\"class\":{},\"original_compiles\":{},\"fixed\":{},\"recompiles\":{},\"remaining_fixable\":{},\"scan_difference\":{},\"yr\":{}}}",
             index, json_str(&g.src), json_str(&g.shape.join(",")),
             format!("[{}]", c.patches.iter().map(|p| format!("{{\"code\":{},\"start\":{},\"end\":{},\"replaced\":{},\"replacement\":{}}}", json_str(&p.code), p.start, p.end, json_str(&String::from_utf8_lossy(&src[p.start.min(src.len())..p.end.min(src.len())])), json_str(&p.repl))).collect::<Vec<_>>().join(",")),
